@@ -139,6 +139,12 @@ func checkC04(w *World, r *Report) {
 	r.Rule("R04.17", "a QName's local part is an NCName: every character from which a LexName starts collecting a name token has passed IsNameStartChar (the first by LexCommon, the one after ':' in LexName itself)", 5)
 	r.guard("R04.17", func() { c04LocalPartStart(w, r) })
 
+	r.Rule("R04.18", "no whitespace inside a token: the whitespace-skipping look-ahead helpers are called from the LexName methods only (name disambiguation of XPath §3.7); operators, numbers and literals are formed from adjacent characters", 4)
+	r.guard("R04.18", func() { c04NoGluedTokens(w, r) })
+
+	r.Rule("R04.19", "a literal needs its closing quote: LexLiteral reaches its LITERAL return only when the closing quote was seen or through ConstructToken, which reports a missing terminator", 1)
+	r.guard("R04.19", func() { c04LiteralClosed(w, r) })
+
 	r.Rule("R04.10", "number tokens: the characters LexNum collects are a subset of XPath Number's alphabet {0-9 .}", 1)
 	r.guard("R04.10", func() {
 		f := w.Method("xpath", "CommonLex", "LexNum")
